@@ -39,8 +39,19 @@ def generate(rng, tier="quick"):
         "reruns": [],
         "share_config": rng.chance(0.4),
     }
-    if rng.chance(0.3):
-        scn["alt_config"] = wl.gen_config(rng, tbl, max_ctx=3, max_tests=2)
+    if rng.chance(0.35):
+        alt = wl.gen_config(rng, tbl, max_ctx=3, max_tests=2)
+        if rng.chance(0.5):
+            # the same windows as the main config (equal Context objects), other streams / tests / parameters
+            import copy
+
+            donors = [c["entries"] for c in alt["contexts"]]
+            alt["contexts"] = [
+                {"window": copy.deepcopy(c.get("window")), "entries": copy.deepcopy(donors[i % len(donors)])}
+                for i, c in enumerate(cfg["contexts"])
+            ]
+            alt["layout"] = "contexts"
+        scn["alt_config"] = alt
         scn["alt_on"] = rng.subset([f for f in fes if f != "qcconfig"], 0.6, at_least=1)
     for fe in fes:
         if fe == "qcconfig":
